@@ -534,7 +534,7 @@ func valuesEqual(a, b any) bool {
 	case reflect.Value:
 		if bv, ok := b.(reflect.Value); ok {
 			if av.Kind() == reflect.Ptr && bv.Kind() == reflect.Ptr {
-				return av.Pointer() == bv.Pointer()
+				return origPtr(av.Pointer()) == origPtr(bv.Pointer())
 			}
 			if av.Kind() == reflect.Interface && bv.Kind() == reflect.Interface {
 				if av.IsNil() || bv.IsNil() {
@@ -542,7 +542,7 @@ func valuesEqual(a, b any) bool {
 				}
 				ae, be := av.Elem(), bv.Elem()
 				if ae.Kind() == reflect.Ptr && be.Kind() == reflect.Ptr {
-					return ae.Pointer() == be.Pointer()
+					return origPtr(ae.Pointer()) == origPtr(be.Pointer())
 				}
 			}
 			if av.CanInterface() && bv.CanInterface() {
@@ -963,6 +963,17 @@ func (b *builder) build(j *JVal, t reflect.Type) reflect.Value {
 	return v
 }
 
+// origOf: object of the pre-state snapshot -> the live object it was copied from, so that identity
+// comparisons between old(...) and current values compare objects, not snapshots
+var origOf = map[uintptr]uintptr{}
+
+func origPtr(p uintptr) uintptr {
+	if o, ok := origOf[p]; ok {
+		return o
+	}
+	return p
+}
+
 func deepCopy(v reflect.Value, seen map[uintptr]reflect.Value) reflect.Value {
 	switch v.Kind() {
 	case reflect.Slice:
@@ -983,6 +994,7 @@ func deepCopy(v reflect.Value, seen map[uintptr]reflect.Value) reflect.Value {
 		}
 		c := reflect.New(v.Type().Elem())
 		seen[v.Pointer()] = c
+		origOf[c.Pointer()] = v.Pointer()
 		if si, ok := stubs[v.Pointer()]; ok {
 			stubs[c.Pointer()] = &stubInfo{s: si.s, pre: true}
 		}
